@@ -16,6 +16,11 @@ func EnumPaths(fn *ssa.Function, maxVisit, limit int, visit func(path []*ssa.Bas
 	if len(fn.Blocks) == 0 {
 		return true
 	}
+	return EnumPathsFrom(fn.Blocks[0], maxVisit, limit, visit)
+}
+
+// EnumPathsFrom is EnumPaths starting at an arbitrary block (suffix paths).
+func EnumPathsFrom(start *ssa.BasicBlock, maxVisit, limit int, visit func(path []*ssa.BasicBlock)) bool {
 	count := 0
 	visits := map[*ssa.BasicBlock]int{}
 	var path []*ssa.BasicBlock
@@ -48,7 +53,7 @@ func EnumPaths(fn *ssa.Function, maxVisit, limit int, visit func(path []*ssa.Bas
 		visits[b]--
 		return ok
 	}
-	return rec(fn.Blocks[0])
+	return rec(start)
 }
 
 // PhiValueOnPath resolves a phi for a step pred->b.
